@@ -230,6 +230,7 @@ AtomicMove<SlotType, BUFFER_SIZE> {
             #[cfg(feature = "verif")] crate::verif::spin(crate::verif::AM_PUBLISH_SPIN);
             relaxed_wait();
         }
+        #[cfg(feature = "verif")] crate::verif::point(crate::verif::AM_PUBLISH_AFTER);
     }
 
     /// Equivalent to [Self::publish_leaked_internal()], but without spinning
@@ -356,6 +357,7 @@ AtomicMove<SlotType, BUFFER_SIZE> {
                 }
             }
         }
+        #[cfg(feature = "verif")] crate::verif::point(crate::verif::AM_RELEASE_AFTER);
     }
 
     /// Returns the index (within the Ring Buffer) that the given `slot` reference occupies
